@@ -16,20 +16,17 @@ Shared machinery of C11 / C12 (JSON Schema checks).
 * twins (C12): single-violation and structural.
 """
 import ast
-import base64
 import copy
 import json
-import math
 import os
 import random
 import re
 import shutil
 import subprocess
-import traceback
 from typing import Any, Callable, Dict, Iterator, List, Optional, Sequence, Tuple
 
-from vf import driver, env, harness, instances, mmgen, pyexec, pysdk, sdkloop
-from vf.instances import EnumVal, Inst
+from vf import driver, env, harness, instances, mmgen, pyexec, pysdk
+from vf.instances import Inst
 from vf.pyexec import PRIMITIVES, PyModel, TypeRef
 
 # ======================================================================= generator
@@ -811,10 +808,6 @@ class DirectedGenerator(instances.SatisfyingGenerator):
 
 
 # ======================================================================= schema tooling
-class DuplicateKeys(Exception):
-    pass
-
-
 def parse_json_strict(text: str) -> Tuple[Any, List[str]]:
     """Parse JSON and report duplicated object keys (a plain ``json.loads`` hides them)."""
     duplicates: List[str] = []
